@@ -780,7 +780,7 @@ impl World {
         lines
     }
 
-    fn snapshot(&self, va: &Addr, idx: u64) -> Option<RawSnapshot> {
+    pub fn snapshot(&self, va: &Addr, idx: u64) -> Option<RawSnapshot> {
         let mut key = vec![0u8, 16u8];
         key.extend_from_slice(b"reserve_snapshot");
         key.extend_from_slice(&idx.to_be_bytes());
